@@ -161,9 +161,11 @@ func reconstructAliasedMap(node *CandidateNode, context Context) error {
 		} else {
 			if valueNode.Kind == SequenceNode {
 				log.Debugf("an alias merge list!")
-				for index := len(valueNode.Content) - 1; index >= 0; index = index - 1 {
-					aliasNode := valueNode.Content[index]
-					err := applyAlias(node, aliasNode.Alias, index, context.ChildContext(newContent))
+				// the entries of a merge list are all brought in (an explicit key further down then replaces the
+				// value in place): the position in the list is not a position in the map to look behind for overrides
+				for aliasIndex := len(valueNode.Content) - 1; aliasIndex >= 0; aliasIndex = aliasIndex - 1 {
+					aliasNode := valueNode.Content[aliasIndex]
+					err := applyAlias(node, aliasNode.Alias, len(node.Content), context.ChildContext(newContent))
 					if err != nil {
 						return err
 					}
